@@ -59,6 +59,11 @@ Selected(e) ==
        /\ (LFPure /\ Shortfall /\ allfee # <<>> =>
              Chk(Lt(SumOver(pre \cup offered).coin, Add(before.output.coin, allfee[1])), P, "LargestFirst/insufficient-although-all-offered-suffice", sc,
                  [have |-> ToBE(SumOver(pre \cup offered).coin, 0), need |-> ToBE(Add(before.output.coin, allfee[1]), 0)]))
+       \* largest-first with assets: insufficiency may be reported only if everything offered (plus what the builder holds) does not
+       \* cover the outputs and the fee of the transaction that spends it all
+       /\ (strat = "LargestFirstMultiAsset" /\ ~LFPure /\ allfee # <<>> =>
+             LET all == VAdd(SumOver(pre \cup offered), [coin |-> Monus(before.input.coin, SumOver(pre).coin), ma |-> EmptyMa]) IN
+             Chk(~Covers(all, before.output, allfee[1]), P, "LargestFirst/insufficient-although-all-offered-suffice", sc, [strat |-> strat, err |-> e.r]))
        /\ (Has(e, "pred") => IF e.pred.result = "insufficient" THEN Emit([t |-> "CONF", sc |-> sc]) ELSE Note(P, "model-drift", sc, [pred |-> e.pred.result, got |-> "err"]))
 Other(e) == UNCHANGED <<env, offered, pre, strat, before, allfee>> /\
             (e.ev = "Explored" => IF e.truncated THEN Note(P, "exploration-truncated", e.sc, e.leaves) ELSE Emit([t |-> "EXH", sc |-> e.sc, leaves |-> e.leaves]))
